@@ -547,8 +547,16 @@ func main() {
 		fails := 0
 		for i := 0; i < 5; i++ {
 			seenImages = map[string]bool{}
-			x := vsched.Run(r.Choices, 200000, body(r.Scenario))
 			before := rep.ViolationCount
+			if r.Scenario.Name == "reset-vs-put" {
+				x := vsched.Run(r.Choices, 200000, rsBody(r.Scenario.Preload))
+				rsFinish(rep, r.Scenario.Preload, x)
+				if rep.ViolationCount > before {
+					fails++
+				}
+				continue
+			}
+			x := vsched.Run(r.Choices, 200000, body(r.Scenario))
 			finish(rep, r.Scenario, x)
 			if rep.ViolationCount > before {
 				fails++
@@ -566,6 +574,7 @@ func main() {
 	}
 	rep.Bounds["preemption_bound"] = bound
 	rep.Rule = fmt.Sprintf("scenarios: 2-3 appender threads with 1-2 appends each, sizes from {0,1,3,30,34,35,60,64} against a 64-byte data page and 4 index items per page (roll-over of both reachable), optional sequential preload; every schedule with <=%d preemptions (-1 = unbounded) (points: every lock/atomic op of pkg/queue, pkg/queue/page and every store into a page); after each schedule: close/reopen/append/reopen on the live directory; a crash image is taken after every store of every schedule and of the reopen phase, every distinct (image bytes, returned appends, in-flight appends) is recovered by the real NewQueue, read back, appended to, reopened. distinct_nontrivial = distinct crash images recovered + schedules with >=1 context switch", bound)
+	runResetVsPut(rep, f, bound) // small: first
 	for si, sc := range scs {
 		sc := sc
 		e := &vsched.Explorer{Bound: bound, Horizon: 200000, Body: body(sc), Shard: f.Shard, Shards: f.Shards, Deadline: f.Deadline}
